@@ -21,6 +21,13 @@ from .util import guard_chain, root_name, strip_not
 NX = {"e", "r"}
 
 
+def _anc16(n):
+    p = getattr(n, "_jv_parent", None)
+    while p is not None:
+        yield p
+        p = getattr(p, "_jv_parent", None)
+
+
 def run(ctx: Ctx) -> int:
     # ---------------- C16.a ---------------------------------------------------
     init = ctx.func("_link_arguments:ActionLink.__init__")
@@ -261,6 +268,26 @@ def run(ctx: Ctx) -> int:
         got.append(r[0])
     ok = sorted(got) == ["key", "parent"]
     ctx.oblige("C16.e", ok, tests[0], "a source key is matched to the class group named by the key or by its immediate parent" if ok else f"a source key is matched against its {sorted(got)} instead of itself and its immediate parent: `outer.inner.attr` resolves to the group `outer` (the value of the wrong object is propagated) or to no group at all", fn=fg)
+
+    # ---------------- C16.f ---------------------------------------------------
+    # links between init args of one nested class are re-declared on the per-class parser (get_class_parser),
+    # whatever else that parser needs: without them the nested components are built in declaration order
+    gcp = ctx.func("_typehints:ActionTypeHint.get_class_parser")
+    la = [c for c in calls_in(gcp) if call_leaf(c) == "link_arguments"]
+    ctx.need(la, "get_class_parser: parser.link_arguments(**link_kwargs)")
+    from .util import guard_atoms
+
+    for c in la:
+        atoms = guard_atoms(c, stop=gcp)
+        loops = [a for a in _anc16(c) if isinstance(a, ast.For)]
+        ok = not atoms and len(loops) == 1 and "nested_links" in ast.unparse(loops[0].iter) and not [x for x in walk_local(loops[0]) if isinstance(x, (ast.Break, ast.Continue))]
+        ctx.oblige(
+            "C16.f",
+            ok,
+            c,
+            "every nested link is re-declared on the per-class parser, unconditionally" if ok else f"the nested links are only re-declared under {[ast.unparse(t) for t, _ in atoms] or 'a changed loop'}: otherwise the per-class parser has no links, its components are instantiated in declaration order and a link target is built before its source (it keeps its default)",
+            fn=gcp,
+        )
 
     ctx.notes.append("C16's exhaustive claim (correct topological order / cycle report for every digraph) is NOT decided by this check; only the wiring and the DFS typestate are.")
     return ctx.finish(
